@@ -18,7 +18,7 @@ import json
 from typing import Any, Dict, List, Optional, Tuple
 
 ID = "C08"
-LEAN_MODULES = ["FaxVerif.C08.Theorems", "FaxVerif.C08.MdTheorems", "FaxVerif.C08.ExtTheorems", "FaxVerif.C08.WireNTheorems"]
+LEAN_MODULES = ["FaxVerif.C08.Theorems", "FaxVerif.C08.MdTheorems", "FaxVerif.C08.ExtTheorems", "FaxVerif.C08.WireNTheorems", "FaxVerif.C08.ChainTheorems"]
 LEAN_SOURCES = ["FaxVerif/C08"]
 DRIVER = "FaxVerif/C08/Driver.lean"
 THEOREMS = [
@@ -59,6 +59,7 @@ THEOREMS = [
     "FaxVerif.C08.injects_in_order",
     "FaxVerif.C08.mdSame_of_commuting",
     "FaxVerif.C08.scripts_chain_any_order",
+    "FaxVerif.C08.scripts_chain_any_length",
     "FaxVerif.C08.scripts_independent_in_list_order",
     "FaxVerif.C08.scripts_order_counterexample",
     "FaxVerif.C08.md_bundle_position",
@@ -164,8 +165,10 @@ LEVEL_NOTE = (
     "does not compile; re-association / duplicated selections when fusing over Select/Where; qastle re-associates n-ary and/or, drops unary "
     "plus on constants and accepts chained comparisons the AST path refuses; two chained Wheres in a lambda the simplifier does not visit are "
     "translated to nested ifs, the fused one to a single short-circuit test. For metadata orders the criterion `mdSameB` is evaluation of "
-    "the model on both orders (it contains the proved `commutingAll` criterion: `mdSame_of_commuting`); the general statement 'equal "
-    "emitScripts for every order of a dependency chain of any length' is proved for two blocks and checked by evaluation for longer ones."
+    "the model on both orders (it contains the proved `commutingAll` criterion: `mdSame_of_commuting`); a dependency chain of any length "
+    "listed in dependency order is proved to be emitted in that order (`scripts_chain_any_length`); 'the same for EVERY order of the "
+    "MetaData calls' is proved for two blocks with arbitrary names and texts and evaluated for all 6 / 24 orders of a three / four block "
+    "chain — the general permutation statement is not proved here (C15 proves that an accepted output is a topological order)."
 )
 TECHNIQUE = "Lean 4 theorems over executable models + correspondence (differential execution against func_adl, qastle, process_metadata) + reference-free comparison of variants on the real pipeline (Spec evaluated by the Lean driver)"
 DESIGN_REF = "DESIGN.md §4 C08"
